@@ -15,8 +15,10 @@ EXTENDS BtNum
 
 SetOf(s) == {s[i] : i \in DOMAIN s}
 NoDup(s) == \A i, j \in DOMAIN s : i # j => s[i] # s[j]
-Cols(tr) == 1..tr.K
-Cell(tr, r, x) == tr.U[r][x]
+\* the strategy's universe: the declared tickers (all of them when none was declared)
+\* and one column per declared sub-strategy (ids K+1 .. K+nsub, carrying its index)
+Cols(tr) == SetOf(tr.scope) \cup ((tr.K + 1)..(tr.K + tr.nsub))
+Cell(tr, r, x) == IF x > tr.K THEN R(100) ELSE tr.U[r][x]
 
 \* tradable now: price present, and positive unless negatives are included
 Tradable(tr, x, inclneg) ==
